@@ -260,7 +260,6 @@ func c02OneFrameOnePacket(c *core.Ctx) {
 			continue
 		}
 		g := u.Graph()
-		info := u.Info()
 		n := 0
 		for _, cl := range u.Calls() {
 			if cl.Name != "onMessage" {
@@ -277,10 +276,10 @@ func c02OneFrameOnePacket(c *core.Ctx) {
 			// message-type case that dominates
 			wantKind := ""
 			for _, f := range g.Facts() {
-				if !f.Br.IsCase || !f.Val || !g.EdgeDominates(f.Br.B, f.Edge, cl.Loc) {
+				if !g.EdgeDominates(f.Br.B, f.Edge, cl.Loc) {
 					continue
 				}
-				if v, ok := core.ConstInt(info, f.Br.Cond); ok {
+				if v, ok := eqIntOnEdge(u, f); ok && isFrameType(u, f.Br) {
 					switch v {
 					case 1:
 						wantKind = "types.NewStringBuffer"
@@ -583,10 +582,10 @@ func c02DeliveryUnconditional(c *core.Ctx) {
 				if !g.EdgeDominates(f.Br.B, f.Edge, cl.Loc) {
 					continue
 				}
-				if f.Br.IsCase {
-					continue // the frame-type switch
-				}
 				cmp, ok := u.BranchCmp(f.Br)
+				if isFrameType(u, f.Br) {
+					continue // the frame-type test
+				}
 				if ok && cmp.Y != nil && core.IsNil(info, cmp.Y) && anyErr(u, cmp.X) {
 					continue
 				}
@@ -750,4 +749,20 @@ func payloadNotTruncated(c *core.Ctx, R string) {
 		}
 		c.Check(R, "transports.(*polling).OnData/uses-decodePayload", od.Pos(), used, "OnData decodes through the repository's decoder")
 	}
+}
+
+// isFrameType: the branch compares the message type a NextReader call returned
+// (switch tag or == / != operand) with a constant.
+func isFrameType(u *core.Unit, br core.Branch) bool {
+	cmp, ok := u.BranchCmp(br)
+	if !ok || cmp.Val == nil {
+		return false
+	}
+	d, k := u.SingleDef(cmp.X)
+	te, isT := d.(*core.TupleElem)
+	if !k || !isT || te.Index != 0 {
+		return false
+	}
+	ce, isC := ast.Unparen(te.X).(*ast.CallExpr)
+	return isC && calleeNameOf(ce) == "NextReader"
 }
